@@ -20,6 +20,7 @@ import re
 import shutil
 
 from vf import build, coq, datadir, forest, mch
+from vf.core import sh
 from vf.forest import Call
 
 NAMES = ["main", "alpha", "beta", "gamma", "delta", "eps", "zeta", "eta", "theta", "iota", "kappa", "lam"]
@@ -934,6 +935,142 @@ KINDS3 = ["plain", "depth", "filter", "fn", "fd", "time", "timetrig", "caller", 
           "range", "pltleaf", "plt"]
 
 
+# ---------------------------------------------------------------- line 4: end to end with compiled programs
+def gen_program(rng):
+    """random call DAG over NAMES[0..7] (main = 0, callees have a higher number) -> (C source, call forest)"""
+    for _ in range(50):
+        calls = {0: [rng.randrange(1, 4) for _ in range(rng.choice([1, 2, 3]))]}
+        for i in range(1, NFUN):
+            hi = list(range(i + 1, NFUN))
+            calls[i] = [rng.choice(hi) for _ in range(rng.choice([0, 0, 1, 2, 3]))] if hi else []
+        count = [0]
+
+        def unfold(i, depth):
+            count[0] += 1
+            if count[0] > 80 or depth > 12:
+                raise OverflowError
+            return Call(i, kids=[unfold(j, depth + 1) for j in calls[i]])
+        try:
+            tree = unfold(0, 0)
+        except OverflowError:
+            continue
+        if count[0] < 4:
+            continue
+        src = ["volatile int sink;", "#define NI __attribute__((noinline))"]
+        for i in range(NFUN - 1, 0, -1):
+            src.append("NI void %s(void) { sink++; %s }" % (NAMES[i], " ".join("%s();" % NAMES[j] for j in calls[i])))
+        src.append("int main(void) { %s sink++; return 0; }" % " ".join("%s();" % NAMES[j] for j in calls[0]))
+        f = [tree]
+        clock = [1000]
+
+        def stamp(c):
+            clock[0] += 3
+            c.t0 = clock[0]
+            for k in c.kids:
+                stamp(k)
+            clock[0] += 3
+            c.t1 = clock[0]
+        stamp(tree)
+        return "\n".join(src) + "\n", f
+    raise RuntimeError("could not generate a program")
+
+
+def gen_e2e_cfg(rng, f):
+    used = sorted(set(c.k for c in fcalls(f)))
+    cfg = {"trig": {}}
+    kind = rng.choice(["depth", "filter", "notrace", "fn", "fd", "fnd"])
+    if kind in ("depth", "fd", "fnd"):
+        cfg["depth"] = rng.choice([1, 2, 3, max(1, fheight(f) - 1)])
+    if kind in ("filter", "fn", "fd", "fnd"):
+        for _ in range(rng.choice([1, 2])):
+            cfg["trig"].setdefault(rng.choice(used), {})["filter"] = True
+    if kind in ("notrace", "fn", "fnd"):
+        for _ in range(rng.choice([1, 2])):
+            k = rng.choice(used)
+            if not cfg["trig"].get(k):
+                cfg["trig"][k] = {"filter": False}
+    return kind, cfg
+
+
+def parse_replay_known(out):
+    """replay output of a real program: lines of functions that are not ours (start-up code) are dropped"""
+    keep = []
+    for l in out.splitlines():
+        m = RE_OPEN.match(l) or RE_LEAF.match(l) or RE_CLOSE.match(l)
+        if m and m.group(2) not in FN:
+            continue
+        keep.append(l)
+    return parse_replay("\n".join(keep))
+
+
+def line4(ctx, objdir, nprog, ncfg):
+    rng = ctx.rng
+    uft = os.path.join(objdir, "uftrace")
+    root = os.path.join(ctx.scratch, "e2e")
+    os.makedirs(root, exist_ok=True)
+    cases = []
+
+    def record(exe, d, opts):
+        shutil.rmtree(d, ignore_errors=True)
+        rc, out, err = sh(["timeout", "30", uft, "record", "--no-pager", "--no-event", "--no-libcall",
+                           "--libmcount-path=" + objdir, "-d", d] + opts + [exe], timeout=60, cwd=root)
+        if rc != 0:
+            raise ParseError("uftrace record %s failed rc=%d: %s" % (" ".join(opts), rc, (out + err)[-300:]))
+
+    def replay(d, opts):
+        if not any(x.endswith(".dat") and os.path.getsize(os.path.join(d, x)) > 0 for x in os.listdir(d)):
+            return []
+        rc, out, err = datadir.uftrace(objdir, "replay", d, ["-f", "none"] + opts, timeout=30)
+        if rc != 0:
+            raise ParseError("uftrace replay %s failed rc=%d: %s" % (" ".join(opts), rc, (out + err)[-300:]))
+        return parse_replay_known(out)
+    for pi in range(nprog):
+        src, f = gen_program(rng)
+        with open(os.path.join(root, "p.c"), "w") as fh:
+            fh.write(src)
+        exes = {}
+        for shape, flags in (("pg", ["-pg"]), ("cyg", ["-finstrument-functions"])):
+            exe = os.path.join(root, "p_%s" % shape)
+            sh(["gcc", "-O0", "-w", "-fno-builtin"] + flags + ["-o", exe, os.path.join(root, "p.c")], check=True)
+            exes[shape] = exe
+        for shape, exe in exes.items():
+            full = os.path.join(root, "full")
+            try:
+                record(exe, full, [])
+                base = replay(full, [])
+                for _ in range(ncfg):
+                    kind, cfg = gen_e2e_cfg(rng, f)
+                    o = cli_opts(cfg)
+                    record(exe, os.path.join(root, "filt"), o)
+                    cases.append({"kind": kind, "shape": shape, "cfg": cfg, "forest": f, "src": src,
+                                  "rec": replay(os.path.join(root, "filt"), []), "opt": replay(full, o), "base": base})
+            except ParseError as e:
+                ctx.violation("end-to-end run failed: %s" % e, {"line": 4, "program": src, "shape": shape}, True)
+    return cases
+
+
+def evaluate4(ctx, cases, name="ecases"):
+    defs = "Definition ecases : list ecase := [\n%s\n].\n" % ";\n".join(
+        "{| e_cfg := %s; e_forest := %s; e_rec := %s; e_opt := %s |}" % (
+            coq_cfg(c["cfg"]), coq_forest(c["forest"]), coq_nd(c["rec"]), coq_nd(c["opt"])) for c in cases)
+    res = coq.run_cases(ctx, name, PRE, defs, [("v_e2e", "bad_indices ok_e2e ecases 0")])
+    if res is None:
+        return None
+    return {k: coq.parse_nat_list(v) for k, v in res.items()}
+
+
+def verdict4(ctx, cases, res):
+    if res is None:
+        return
+    for i in res["v_e2e"][:3]:
+        c = cases[i]
+        ctx.violation("C07 violated end to end (%s): `record %s` + replay, `record` + `replay %s` and the documented "
+                      "selection differ" % (c["shape"], " ".join(cli_opts(c["cfg"])), " ".join(cli_opts(c["cfg"]))),
+                      {"line": 4, "program": c["src"], "shape": c["shape"], "options": cli_opts(c["cfg"]),
+                       "record_with_options_then_replay": c["rec"], "record_then_replay_with_options": c["opt"],
+                       "forest": [x.to_json() for x in c["forest"]], "cfg": cfg_json(c["cfg"])}, True)
+
+
 # ---------------------------------------------------------------- dedicated witnesses of known divergences
 def C(k, t0, t1, kids=None):
     return Call(k, t0, t1, kids or [])
@@ -1061,6 +1198,14 @@ def run(ctx):
                  + (["mt:in-spec-class"] if i in inside3 else []),
                  size=size, sample=mcase_json(c) if i == 1 else None)
     verdict3(ctx, mcases, res3)
+    # ---- line 4: compiled programs, real `uftrace record`
+    ecases = line4(ctx, objdir, ctx.n(1, 6), ctx.n(4, 8))
+    res4 = evaluate4(ctx, ecases)
+    for c in ecases:
+        ctx.case(key=("e2e", c["shape"], c["src"], json.dumps(cfg_json(c["cfg"]), sort_keys=True)),
+                 nontrivial=c["opt"] != c["base"], tags=["e2e", "e2e:" + c["shape"], "e2e:" + c["kind"]],
+                 size=sum(x.size() for x in c["forest"]))
+    verdict4(ctx, ecases, res4)
 
 
 def replay(ctx, obj):
